@@ -222,7 +222,20 @@ def run(tier, seed, replay=None):
             if vals[0] != vals[1]:
                 probs.append("pretty and compact documents parse to different values")
             try:
-                back = ReportReader.from_json(pretty)
+                # the document is read back in a process that has detected a repository of its own for the current run
+                # (scan / upload in a clone with a GitHub remote set Configuration.repository): what is read is still only
+                # what the document says (seeded change C08-21: a report without repository adopting the run's)
+                from codelimit.common.Configuration import Configuration
+                from codelimit.common.GithubRepository import GithubRepository
+                run_repo = i % 2 == 0
+                saved_repo = Configuration.repository
+                if run_repo:
+                    Configuration.repository = GithubRepository("run-owner", "run-name", "run-branch")
+                try:
+                    back = ReportReader.from_json(pretty)
+                finally:
+                    Configuration.repository = saved_repo
+                chk.count("read back " + ("with" if run_repo else "without") + " a repository detected for the run")
                 a, b = canon_report(rep), canon_report(back)
                 names = ["version", "identifier", "root", "repository", "codebase (totals, tree, files)"]
                 for nm, x, y in zip(names, a, b):
